@@ -1,0 +1,151 @@
+//go:build verif
+
+package pdnode_coord
+
+import (
+	"sync/atomic"
+	"time"
+
+	"github.com/youzan/ZanRedisDB/cluster"
+)
+
+// Only compiled with the build tag "verif". Constructor of a PDCoordinator over a caller-supplied
+// PDRegister (e.g. an in-memory one) that considers itself the pd leader, exported wrappers of the
+// unexported replica-migration decision methods, and read-only accessors of the coordinator state
+// they depend on. No behaviour of its own: every wrapper is a single call of the wrapped method.
+
+// VerifNewPDCoordinator builds a coordinator with the given register whose leader is itself.
+// Nothing is started (no goroutines, no register calls).
+func VerifNewPDCoordinator(clusterID string, n *cluster.NodeInfo, opts *cluster.Options, r cluster.PDRegister) *PDCoordinator {
+	coord := NewPDCoordinator(clusterID, n, opts)
+	coord.SetRegister(r)
+	coord.leaderNode = coord.myNode
+	return coord
+}
+
+// VerifHandleDataNodes runs the data-node watch loop (blocks until the register closes the node channel).
+func (pdCoord *PDCoordinator) VerifHandleDataNodes(monitorChan chan struct{}, isMaster bool) {
+	pdCoord.handleDataNodes(monitorChan, isMaster)
+}
+
+// VerifDrainCheckChan removes the pending "check namespaces" triggers and returns them.
+func (pdCoord *PDCoordinator) VerifDrainCheckChan() []cluster.NamespaceNameInfo {
+	var out []cluster.NamespaceNameInfo
+	for {
+		select {
+		case i := <-pdCoord.checkNamespaceFailChan:
+			out = append(out, i)
+		default:
+			return out
+		}
+	}
+}
+
+func (pdCoord *PDCoordinator) VerifDoCheckNamespaces(monitorChan chan struct{}, failedInfo *cluster.NamespaceNameInfo,
+	waitingMigrateNamespace map[string]map[int]time.Time, fullCheck bool) {
+	pdCoord.doCheckNamespaces(monitorChan, failedInfo, waitingMigrateNamespace, fullCheck)
+}
+
+func (pdCoord *PDCoordinator) VerifHandleNamespaceMigrate(nsInfo *cluster.PartitionMetaInfo,
+	currentNodes map[string]cluster.NodeInfo, currentNodesEpoch int64) *cluster.CoordErr {
+	return pdCoord.handleNamespaceMigrate(nsInfo, currentNodes, currentNodesEpoch)
+}
+
+func (pdCoord *PDCoordinator) VerifAddNamespaceToNode(nsInfo *cluster.PartitionMetaInfo, nid string) *cluster.CoordErr {
+	return pdCoord.addNamespaceToNode(nsInfo, nid)
+}
+
+func (pdCoord *PDCoordinator) VerifRemoveNamespaceFromNode(nsInfo *cluster.PartitionMetaInfo, nid string) *cluster.CoordErr {
+	return pdCoord.removeNamespaceFromNode(nsInfo, nid)
+}
+
+func (pdCoord *PDCoordinator) VerifRemoveNamespaceFromRemovings(nsInfo *cluster.PartitionMetaInfo) {
+	pdCoord.removeNamespaceFromRemovings(nsInfo)
+}
+
+func (pdCoord *PDCoordinator) VerifProcessRemovingNodes(monitorChan chan struct{}, removingNodes map[string]string) {
+	pdCoord.processRemovingNodes(monitorChan, removingNodes)
+}
+
+func (pdCoord *PDCoordinator) VerifRebalanceNamespace(monitorChan chan struct{}) (bool, bool) {
+	return pdCoord.dpm.rebalanceNamespace(monitorChan)
+}
+
+func (pdCoord *PDCoordinator) VerifAddNodeToNamespaceAndWaitReady(monitorChan chan struct{}, nsInfo *cluster.PartitionMetaInfo,
+	nodeNameList [][]string) (*cluster.PartitionMetaInfo, error) {
+	l := make([]SortableStrings, 0, len(nodeNameList))
+	for _, s := range nodeNameList {
+		l = append(l, SortableStrings(s))
+	}
+	return pdCoord.dpm.addNodeToNamespaceAndWaitReady(monitorChan, nsInfo, l)
+}
+
+func (pdCoord *PDCoordinator) VerifAllocNodeForNamespace(nsInfo *cluster.PartitionMetaInfo,
+	currentNodes map[string]cluster.NodeInfo) (*cluster.NodeInfo, *cluster.CoordErr) {
+	return pdCoord.dpm.allocNodeForNamespace(nsInfo, currentNodes)
+}
+
+func (pdCoord *PDCoordinator) VerifDecideUnwantedRaftNode(nsInfo *cluster.PartitionMetaInfo,
+	currentNodes map[string]cluster.NodeInfo) string {
+	return pdCoord.dpm.decideUnwantedRaftNode(nsInfo, currentNodes)
+}
+
+// VerifPartitionPlacement is the placement query the decision methods make
+// (getCurrentPartitionNodes followed by getRebalancedNamespacePartitions).
+func (pdCoord *PDCoordinator) VerifPartitionPlacement(nsInfo *cluster.PartitionMetaInfo,
+	currentNodes map[string]cluster.NodeInfo) ([][]string, *cluster.CoordErr) {
+	oldParts, coordErr := pdCoord.dpm.getCurrentPartitionNodes(nsInfo.Name)
+	if coordErr != nil {
+		return nil, coordErr
+	}
+	return getRebalancedNamespacePartitions(nsInfo.Name, nsInfo.PartitionNum, nsInfo.Replica, oldParts,
+		currentNodes, pdCoord.dpm.balanceVer)
+}
+
+func (pdCoord *PDCoordinator) VerifGetCurrentNodes(tags map[string]interface{}) map[string]cluster.NodeInfo {
+	return pdCoord.getCurrentNodes(tags)
+}
+
+func (pdCoord *PDCoordinator) VerifGetCurrentNodesWithEpoch(tags map[string]interface{}) (map[string]cluster.NodeInfo, int64) {
+	return pdCoord.getCurrentNodesWithEpoch(tags)
+}
+
+// VerifCoordState is a read-only snapshot of the coordinator fields the decision methods read.
+type VerifCoordState struct {
+	NodesEpoch     int64
+	StableNodeNum  int32
+	Unstable       bool
+	Upgrading      bool
+	AutoBalance    bool
+	BalanceWaiting bool
+	DoChecking     bool
+	DataNodes      []string
+	RemovingNodes  map[string]string
+}
+
+func (pdCoord *PDCoordinator) VerifState() VerifCoordState {
+	s := VerifCoordState{
+		NodesEpoch:     atomic.LoadInt64(&pdCoord.nodesEpoch),
+		StableNodeNum:  atomic.LoadInt32(&pdCoord.stableNodeNum),
+		Unstable:       atomic.LoadInt32(&pdCoord.isClusterUnstable) == 1,
+		Upgrading:      atomic.LoadInt32(&pdCoord.isUpgrading) == 1,
+		AutoBalance:    atomic.LoadInt32(&pdCoord.autoBalance) == 1,
+		BalanceWaiting: atomic.LoadInt32(&pdCoord.balanceWaiting) == 1,
+		DoChecking:     atomic.LoadInt32(&pdCoord.doChecking) == 1,
+		RemovingNodes:  make(map[string]string),
+	}
+	pdCoord.nodesMutex.RLock()
+	for nid := range pdCoord.dataNodes {
+		s.DataNodes = append(s.DataNodes, nid)
+	}
+	for nid, st := range pdCoord.removingNodes {
+		s.RemovingNodes[nid] = st
+	}
+	pdCoord.nodesMutex.RUnlock()
+	return s
+}
+
+// VerifWaitIntervals returns the two wait-interval gates of the migration control flow.
+func VerifWaitIntervals() (migrate time.Duration, removing time.Duration) {
+	return waitMigrateInterval, waitRemoveRemovingNodeInterval
+}
